@@ -90,21 +90,23 @@ Record flags : Type := {
   f_nonset : bool;        (* a step after a non-node-set: assert in moveto_resolve_model() for a name test,
                              empty node-set instead of an error for node() (xpath_pi_node) *)
   f_alldup : bool;        (* moveto_node_alldesc_child(): a node that is also a start node is inserted twice *)
-  f_skip : bool           (* xpath_pi_node() ignores LYXP_SKIP_EXPR: a skipped operand of or/and containing
+  f_skip : bool;          (* xpath_pi_node() ignores LYXP_SKIP_EXPR: a skipped operand of or/and containing
                              "//" + a non-child axis + a name test empties the accumulated result *)
+  f_texthash : bool       (* xpath_pi_text() retypes set items without updating the set's hash table (present from
+                             4 items on); the consistency assert of set_sort() fails at the next predicate *)
 }.
 
 Definition spec_flags : flags :=
   {| f_prec := 53; f_n2s := false; f_s2n := false; f_floor := false; f_bytes := false; f_strval := false;
      f_predtrunc := false; f_predglobal := false; f_following := false; f_preceding := false; f_rootstar := false;
      f_text := false; f_dslash := false; f_assert := false; f_crash := false; f_cmpbool := false; f_canon := false;
-     f_fast := false; f_nsaxis := false; f_attrnode := false; f_nonset := false; f_alldup := false; f_skip := false |}.
+     f_fast := false; f_nsaxis := false; f_attrnode := false; f_nonset := false; f_alldup := false; f_skip := false; f_texthash := false |}.
 
 Definition impl_flags : flags :=
   {| f_prec := 64; f_n2s := true; f_s2n := true; f_floor := true; f_bytes := true; f_strval := true;
      f_predtrunc := true; f_predglobal := true; f_following := true; f_preceding := true; f_rootstar := true;
      f_text := true; f_dslash := true; f_assert := true; f_crash := true; f_cmpbool := true; f_canon := true;
-     f_fast := true; f_nsaxis := true; f_attrnode := true; f_nonset := true; f_alldup := true; f_skip := true |}.
+     f_fast := true; f_nsaxis := true; f_attrnode := true; f_nonset := true; f_alldup := true; f_skip := true; f_texthash := true |}.
 
 (* error classes *)
 Definition E_TYPE : N := 7.        (* LY_EVALID: wrong operand / argument type, unknown function, wrong arity *)
@@ -691,7 +693,7 @@ Section Eval.
   (* one step "base/axis::test[preds]" (or "base//...") from the context set S0.
      [ap nca rv skip l] applies the predicates of the step to the candidate list l (eval's apply_preds);
      [fastp] / [fastv] are the as-coded key lookup of the step (fast_pre, fast_vals). *)
-  Definition step_body (nca0 : bool) (S0 : list item) (ds : bool) (ax : axis) (nt : ntest)
+  Definition step_body (nca0 : bool) (S0 : list item) (ds : bool) (ax : axis) (nt : ntest) (has_preds : bool)
              (ap : bool -> bool -> nat -> list item -> res (list item))
              (fastp : list item -> option (xnode * list bytes))
              (fastv : xnode -> list bytes -> option (list bytes)) : res value :=
@@ -715,8 +717,9 @@ Section Eval.
       let nca2 := nca1 || nonchild_axis ax in
       if f_text fl && match nt with TText => true | _ => false end then
         (* xpath_pi_text(): on the child axis the term nodes of the context set become their text nodes *)
-        bind (ap nca2 false 0%nat (if is_child_axis ax then flat_map text_of_item S else []))
-             (fun l => Ok (VSet l))
+        let texts := if is_child_axis ax then flat_map text_of_item S else [] in
+        if f_texthash fl && has_preds && (4 <=? length texts)%nat then Err E_ASSERT
+        else bind (ap nca2 false 0%nat texts) (fun l => Ok (VSet l))
       else
       bind (if (f_assert fl || f_crash fl) && negb alldesc_child then step_checks nca1 ax nt S else Ok tt) (fun _ =>
       if f_predglobal fl then
@@ -767,7 +770,7 @@ Section Eval.
         bind (eval cx base) (fun bv =>
         match bv with
         | VSet S0 =>
-            step_body (nca_of base (c_nca cx)) S0 ds ax nt
+            step_body (nca_of base (c_nca cx)) S0 ds ax nt (match ps with PNil => false | _ => true end)
               (fun nca rv skip l => apply_preds cx nca rv skip ps l)
               (fast_pre ax ds nt ps)
               (fun n0 keys => fast_vals cx n0 keys ps)
